@@ -8,6 +8,7 @@ every callable of the grammar (any list of call operators, any qualifiers of a m
 first argument in each of its six cv/ref forms and any number of trailing `int` arguments.
 -/
 import Tetl.C15.Invoke
+import Tetl.C15.GenInvoke
 namespace Tetl.C15.Props
 open Tetl.C15 Tetl.C15.Inv
 
@@ -102,5 +103,19 @@ theorem invoke_named_parameter_differs :
     Inv.Model.invokeWith .named (.pmf ⟨false, false, .lref⟩ false .int 0) ⟨false, .none⟩ (some ⟨.cls false, ⟨false, .none⟩⟩) 0 = some (.pr .int) ∧
     Inv.Spec.invoke (.pmf ⟨false, false, .lref⟩ false .int 0) ⟨false, .none⟩ (some ⟨.cls false, ⟨false, .none⟩⟩) 0 = none := by
   decide
+
+/-! Tie to the source: `GenInvoke.overloads` is extracted from the preprocessed header on every run (gen/c15_invoke.py). -/
+
+/-- the overload set of `detail::invoke_impl` / `detail::INVOKE` in the header - names, requires-clauses, parameters
+    and trailing return types - is the one the model transcribes -/
+theorem invoke_overloads_as_modelled : GenInvoke.overloads = Inv.expectedOverloads := by decide
+
+/-- in particular the member-function `call` hands `etl::forward<T>(t)` (not the named parameter) to `get` -/
+theorem invoke_object_argument_forwarded : Inv.argExprOf GenInvoke.overloads = some .forwarded := by decide
+
+/-- INVOKE evaluated with the argument expression READ FROM THE HEADER is [func.require]/1 -/
+theorem invoke_extracted_eq_spec (f : Callable) (fq : TyQ) (a1 : Option Arg) (n : Nat) :
+    (Inv.argExprOf GenInvoke.overloads).map (fun e => Inv.Model.invokeWith e f fq a1 n) = some (Inv.Spec.invoke f fq a1 n) := by
+  rw [invoke_object_argument_forwarded]; exact congrArg some (invoke_eq f fq a1 n)
 
 end Tetl.C15.Props
